@@ -75,14 +75,15 @@ def run_property(mod, tier, seed, replay=None):
     # 3. the tie (possibly several stages: a module may derive follow-up requests from earlier answers)
     def answer_all(ls):
         midx = [i for i, l in enumerate(ls) if not l.startswith("@impl ")]
-        m_part = core.run_model([ls[i][7:] if ls[i].startswith("@model ") else ls[i] for i in midx]) if ok_model else ["bad-request"] * len(midx)
+        shards = getattr(mod, "SHARDS", None)
+        m_part = core.run_model([ls[i][7:] if ls[i].startswith("@model ") else ls[i] for i in midx], shards) if ok_model else ["bad-request"] * len(midx)
         m = ["@impl"] * len(ls)
         for j, i in enumerate(midx):
             m[i] = m_part[j]
         idx = [i for i, l in enumerate(ls) if not l.startswith("@model ")]
         ils = [ls[i][6:] if ls[i].startswith("@impl ") else ls[i] for i in idx]
-        c_part = core.run_impl(ils, "checked")
-        r_part = core.run_impl(ils, "release")
+        c_part = core.run_impl(ils, "checked", getattr(mod, "IMPL_SHARDS", shards))
+        r_part = core.run_impl(ils, "release", getattr(mod, "IMPL_SHARDS", shards))
         c = ["@model"] * len(ls); r = ["@model"] * len(ls)
         for j, i in enumerate(idx):
             c[i] = c_part[j]; r[i] = r_part[j]
